@@ -62,6 +62,9 @@ func changeRequestToTarget(req *http.Request, httpsDefault bool) error {
 	}
 
 	targetUrl.Path = req.URL.Path
+	// Keep the client's own encoding of the path: without RawPath "/dir%2Ffile" would be sent
+	// to the origin as "/dir/file", which is a different resource.
+	targetUrl.RawPath = req.URL.RawPath
 	targetUrl.RawQuery = req.URL.RawQuery
 	targetUrl.Fragment = req.URL.Fragment
 	req.URL = targetUrl
